@@ -34,6 +34,7 @@ def main():
     ap.add_argument("--tier", default="quick")
     ap.add_argument("--props", default=None, help="comma list of properties to run (default: meta.json's)")
     ap.add_argument("--seed", default="0")
+    ap.add_argument("--benign", action="store_true", help="a harmless change: no demo; any non-zero exit of the check is a false alarm")
     a = ap.parse_args()
     d = os.path.abspath(a.dir)
     meta = json.load(open(os.path.join(d, "meta.json")))
@@ -45,16 +46,18 @@ def main():
         rc, o = sh(["git", "-C", "/repo", "worktree", "add", "--detach", wt, "HEAD"])
         assert rc == 0, o
         env = dict(os.environ, PYTHONPATH="%s/src:%s" % (wt, wt), XDG_CACHE_HOME=tempfile.mkdtemp(prefix="seedchk-xdg-"))
-        rc, o = sh(["/venv/bin/python", os.path.join(d, "demo.py")], cwd=wt, env=env, timeout=900)
-        out["demo_clean_rc"] = rc
+        if not a.benign:
+            rc, o = sh(["/venv/bin/python", os.path.join(d, "demo.py")], cwd=wt, env=env, timeout=900)
+            out["demo_clean_rc"] = rc
         rc, o = sh(["git", "apply", os.path.join(d, "patch.diff")], cwd=wt)
         out["apply_rc"] = rc
         if rc != 0:
             out["apply_err"] = o[-500:]
         else:
-            rc, o = sh(["/venv/bin/python", os.path.join(d, "demo.py")], cwd=wt, env=env, timeout=900)
-            out["demo_patched_rc"] = rc
-            out["demo_patched_tail"] = o[-300:]
+            if not a.benign:
+                rc, o = sh(["/venv/bin/python", os.path.join(d, "demo.py")], cwd=wt, env=env, timeout=900)
+                out["demo_patched_rc"] = rc
+                out["demo_patched_tail"] = o[-300:]
             if a.tests:
                 rc, o = sh("/venv/bin/python -m pytest -q -p no:cacheprovider --timeout=900 --continue-on-collection-errors "
                            "--junitxml=%s/junit.xml >/dev/null 2>&1" % wt, cwd=wt, env=env)
@@ -72,6 +75,7 @@ def main():
                 vl = [l for l in o.splitlines() if l.startswith("VIOLATION")]
                 checks[p] = dict(rc=rc, violation_lines=vl[:3], tail=o.splitlines()[-1:] if o else [])
             out["checks"] = checks
+            out["alarm"] = any(c["rc"] != 0 for c in checks.values())
             out["caught"] = any(c["rc"] == 1 and c["violation_lines"] for c in checks.values())
             out["caught_with_input"] = any(c["rc"] == 1 and any("no-failing-input-found" not in l for l in c["violation_lines"])
                                            for c in checks.values())
